@@ -17,8 +17,49 @@ CVC5_TLIMIT_MS = int(os.environ.get("PYVC_CVC5_TLIMIT_MS", "8000"))
 CVC5 = os.environ.get("PYVC_CVC5", "/usr/bin/cvc5")
 
 
-def _query(ob: Obligation):
-    forms = list(ob.pc) + [z3.Not(ob.goal)]
+def _consts(f, cache: dict) -> frozenset:
+    fid = f.get_id()
+    if fid in cache:
+        return cache[fid]
+    out = set()
+    stack = [f]
+    seen = set()
+    while stack:
+        x = stack.pop()
+        if x.get_id() in seen:
+            continue
+        seen.add(x.get_id())
+        if z3.is_quantifier(x):
+            stack.append(x.body())
+            continue
+        if z3.is_app(x):
+            if x.num_args() == 0 and x.decl().kind() == z3.Z3_OP_UNINTERPRETED:
+                out.add(x.decl().name())
+            stack.extend(x.children())
+    cache[fid] = frozenset(out)
+    return cache[fid]
+
+
+def _sliced_pc(ob: Obligation) -> list:
+    """Cone of influence: only the hypotheses that share (transitively) a free constant with the goal.
+    Dropping hypotheses is sound for a validity check; the full path condition is used when the slice does not suffice."""
+    cache: dict = {}
+    goal_syms = set(_consts(ob.goal, cache))
+    pcs = [(f, _consts(f, cache)) for f in ob.pc]
+    keep = [False] * len(pcs)
+    changed = True
+    while changed:
+        changed = False
+        for i, (f, syms) in enumerate(pcs):
+            if not keep[i] and (syms & goal_syms or not syms):
+                keep[i] = True
+                goal_syms |= syms
+                changed = True
+    return [f for (f, _), k in zip(pcs, keep) if k]
+
+
+def _query(ob: Obligation, sliced: bool = False):
+    forms = (_sliced_pc(ob) if sliced else list(ob.pc)) + [z3.Not(ob.goal)]
     ax = smt.axioms_for(forms)
     return ax, forms
 
@@ -26,7 +67,7 @@ def _query(ob: Obligation):
 def _cvc5(solver: z3.Solver) -> tuple[str, str]:
     text = "(set-logic ALL)\n" + solver.to_smt2()
     # `sep` is reserved in cvc5's parser
-    text = re.sub(r"(?<![\w!.|])sep(?![\w!.|])", "sep_", text)
+    text = re.sub(r"(?<![\w!.|])sep(?![\w!.|])", "sep_", text).replace("seq.nth_i", "seq.nth").replace("seq.nth_u", "seq.nth")
     with tempfile.NamedTemporaryFile("w", suffix=".smt2", delete=False) as fh:
         fh.write(text)
         path = fh.name
@@ -91,9 +132,22 @@ def discharge_quick(ob: Obligation) -> str | None:
         ob.backend = "simplifier"
         return None
     t0 = time.time()
+    if ob.kind != "vacuity":
+        axs, fs = _query(ob, sliced=True)
+        if len(fs) < len(ob.pc) + 1:
+            s0 = z3.Solver()
+            s0.set("rlimit", Z3_QUICK_RLIMIT)
+            s0.set("timeout", 10000)
+            s0.add(*axs)
+            s0.add(*fs)
+            if s0.check() == z3.unsat:
+                ob.time_s = time.time() - t0
+                ob.status, ob.backend = "discharged", "z3"
+                return None
     ax, forms = _query(ob)
     s = z3.Solver()
     s.set("rlimit", Z3_QUICK_RLIMIT)
+    s.set("timeout", 10000)
     s.add(*ax)
     s.add(*forms)
     r = s.check()
@@ -120,7 +174,7 @@ def finish_pending(task: tuple[str, str, str]) -> dict:
     """Second pass (one process per obligation): cvc5 on the dump, then z3 with the full budget."""
     ident, text, quick_detail = task
     t0 = time.time()
-    text_c = re.sub(r"(?<![\w!.|])sep(?![\w!.|])", "sep_", text)
+    text_c = re.sub(r"(?<![\w!.|])sep(?![\w!.|])", "sep_", text).replace("seq.nth_i", "seq.nth").replace("seq.nth_u", "seq.nth")
     with tempfile.NamedTemporaryFile("w", suffix=".smt2", delete=False) as fh:
         fh.write(text_c)
         path = fh.name
@@ -136,6 +190,7 @@ def finish_pending(task: tuple[str, str, str]) -> dict:
         return {"id": ident, "status": "discharged", "backend": "cvc5", "time_s": time.time() - t0, "detail": ""}
     s = z3.Solver()
     s.set("rlimit", Z3_RLIMIT)
+    s.set("timeout", 30000)
     s.from_string(text)
     r = s.check()
     if r == z3.sat and not model_validates(s):
@@ -165,6 +220,7 @@ def discharge(ob: Obligation, use_cvc5: bool = True, both: bool = False) -> Obli
     ax, forms = _query(ob)
     s = z3.Solver()
     s.set("rlimit", Z3_RLIMIT)
+    s.set("timeout", 30000)
     s.add(*ax)
     s.add(*forms)
     r = s.check()
